@@ -5,7 +5,10 @@ From MV Require Import Model.ConnHandler Proofs.ConnHandlerBase Proofs.ConnHandl
 Import ListNotations.
 
 Definition in_region (p : cpc) : bool :=
-  match p with PConnecting | PHookErr _ | PHookConnected | PRead | PEvent | PHookDisc _ => true | _ => false end.
+  match p with
+  | PConnecting | PHookErr _ | PHookConnected | PRead | PDrainLock _ | PDrain _ _ | PEvent | PHookDisc _ => true
+  | _ => false
+  end.
 Definition is_woken (p : cpc) : bool := match p with PSem WWoken => true | _ => false end.
 Definition wtv (b : nat) (ao : option nat) (p : cpc) : nat :=
   if match ao with Some a => Nat.eqb a b | None => false end && (in_region p || is_woken p) then 1 else 0.
@@ -39,8 +42,9 @@ Qed.
 
 Lemma wt_psoft : forall b x y, psoft x y -> wt b y = wt b x.
 Proof.
-  unfold psoft, wt. intros b x y (A & P & _). rewrite A. destruct P as [P | [P P']]; rewrite P; auto. rewrite P'.
-  unfold wtv. simpl. rewrite !andb_false_r. auto.
+  unfold psoft, wt. intros b x y (A & P & _). rewrite A. destruct P as [P | [[P P'] | [P P']]]; rewrite P; auto; rewrite P'.
+  - unfold wtv. simpl. rewrite !andb_false_r. auto.
+  - reflexivity.
 Qed.
 Lemma wt_isnew : forall b y, isnew y -> wt b y = 0.
 Proof. intros b y [a H]. rewrite (wt_psoft _ _ _ H). unfold wt, wtv. simpl. rewrite andb_false_r. auto. Qed.
@@ -146,22 +150,28 @@ Qed.
 Lemma rv_emit : forall c S p ao u e, RV c S p ao u -> RV c (emit S e) p ao u.
 Proof. intros. exact H. Qed.
 
-Lemma rv_frame : forall c S S' p ao u, frame S S' -> RV c S p ao u -> p <> PSem WPending -> RV c S' p ao u.
+Definition npend (p : cpc) : Prop := p <> PSem WPending /\ p <> PDrainLock WPending.
+
+Lemma rv_frame : forall c S S' p ao u, frame S S' -> RV c S p ao u -> npend p -> RV c S' p ao u.
 Proof.
   intros c S S' p ao u F (L & P & Ad & R & Q & Z) NP. pose proof (frame_len _ _ F).
   pose proof (frame_getc _ _ c F L) as (A' & P' & _).
   repeat split; try lia.
-  - destruct P' as [P' | [P' _]]; congruence.
+  - destruct NP as [NP1 NP2]. destruct P' as [P' | [[P' _] | [P' _]]]; congruence.
   - congruence.
   - intros. rewrite (rest_frame _ _ _ _ F); auto.
   - eapply QQ_frame; eauto.
   - intros. rewrite (addr0_frame _ _ F); auto. lia.
 Qed.
 
-Lemma rv_server_event : forall c S p ao u e, RV c S p ao u -> p <> PSem WPending -> RV c (server_event S e) p ao u.
+Lemma rv_server_event : forall c S p ao u e, RV c S p ao u -> npend p -> RV c (server_event S e) p ao u.
 Proof. intros. eapply rv_frame; eauto using frame_server_event. Qed.
-Lemma rv_drain : forall c S p ao u, RV c S p ao u -> p <> PSem WPending -> RV c (drain_writers S) p ao u.
-Proof. intros. eapply rv_frame; eauto using frame_drain. Qed.
+Lemma rv_drain_error : forall c S p ao u d, RV c S p ao u -> npend p -> RV c (drain_error S d) p ao u.
+Proof. intros. eapply rv_frame; eauto using frame_drain_error. Qed.
+Lemma rv_setc_cong : forall c S p ao u d b, RV c S p ao u -> npend p -> RV c (setc S d (with_cong (getc S d) b)) p ao u.
+Proof. intros. eapply rv_frame; eauto. apply frame_setc. unfold psoft; simpl; intuition. Qed.
+Lemma rv_set_lock : forall c S p ao u b q, RV c S p ao u -> RV c (set_lock S b q) p ao u.
+Proof. intros c S p ao u b q H. exact H. Qed.
 
 (* semaphore operations of the task on its own address *)
 Definition bump (a : nat) (u : nat -> nat) : nat -> nat := fun b => if Nat.eqb b a then u b + 1 else u b.
@@ -211,9 +221,9 @@ Proof.
 Qed.
 
 Lemma rv_wake_next : forall c S p ao u a,
-  RV c S p ao u -> p <> PSem WPending -> 1 <= semval S a -> RV c (wake_next S a) p ao u.
+  RV c S p ao u -> npend p -> 1 <= semval S a -> RV c (wake_next S a) p ao u.
 Proof.
-  intros c S p ao u a H NP V. unfold wake_next. destruct (first_pending S (semq S a)) eqn:E; auto.
+  intros c S p ao u a H [NP _] V. unfold wake_next. destruct (first_pending S (semq S a)) eqn:E; auto.
   destruct (first_pending_in _ _ _ E) as [I Pd]. destruct H as (L & P & Ad & R & Q & Z).
   assert (Dc : n <> c) by (intro; subst; congruence).
   pose proof (QQ_inrange _ _ _ Q I) as Ln. pose proof (Q a n I) as An.
@@ -239,7 +249,7 @@ Proof.
 Qed.
 
 Lemma rv_release_some : forall c S p a u,
-  RV c S p (Some a) u -> p <> PSem WPending -> 1 <= u a -> RV c (release_of S c) p (Some a) (drop a u).
+  RV c S p (Some a) u -> npend p -> 1 <= u a -> RV c (release_of S c) p (Some a) (drop a u).
 Proof.
   intros c S p a u H NP U. unfold release_of. assert (Ad : c_addr (getc S c) = Some a) by (destruct H as (_ & _ & Ad & _); exact Ad).
   rewrite Ad. unfold sem_release.
@@ -264,6 +274,33 @@ Proof. intros. unfold hc_read. eapply rv_goto. apply rv_emit. eauto. Qed.
 Lemma rv_enter : forall c S p ao u, RV c S p ao u -> RV c (enter_sem_body S c) PConnecting ao u.
 Proof. intros. unfold enter_sem_body. eapply rv_goto. apply rv_emit. eauto. Qed.
 
+Lemma rv_wake_first : forall c S p ao u, RV c S p ao u -> npend p -> RV c (wake_first S) p ao u.
+Proof.
+  intros c S p ao u H [_ NP]. unfold wake_first. destruct (dlockq S) as [|n q]; auto.
+  destruct (c_pc (getc S n)) eqn:Pd; auto. destruct w; auto.
+  destruct H as (L & P & Ad & R & Q & Z).
+  assert (Dc : n <> c) by (intro; subst; congruence).
+  set (y := with_wake (with_pc (getc S n) (PDrainLock WWoken)) (Some PNone) (c_cf (getc S n))).
+  assert (Ay : c_addr y = c_addr (getc S n)) by reflexivity.
+  destruct (Nat.lt_ge_cases n (length (conns S))) as [Ln | Ln].
+  2:{ unfold setc. rewrite upd_oob; auto. repeat split; auto. }
+  repeat split; simpl; rewrite ?upd_length; auto.
+  - rewrite <- P. unfold getc. simpl. rewrite nth_upd_other; auto.
+  - rewrite <- Ad. unfold getc. simpl. rewrite nth_upd_other; auto.
+  - intros b. specialize (R b). unfold rest in *. simpl.
+    pose proof (totex_upd_other b (conns S) c n y Dc Ln) as T. fold (getc S n) in T.
+    assert (W : wt b y = wt b (getc S n)) by (unfold wt; rewrite Ay; unfold y; simpl; rewrite Pd; reflexivity).
+    lia.
+  - intros a' d I'. simpl in I'. specialize (Q a' d I'). unfold getc in *. simpl. destruct (Nat.eq_dec n d).
+    + subst. rewrite nth_upd_same; auto.
+    + rewrite nth_upd_other; auto.
+  - intros. unfold getc. simpl. destruct (Nat.eq_dec n 0).
+    + subst. rewrite nth_upd_same; auto; try (rewrite Ay; apply Z; auto); try (apply Z; auto).
+    + rewrite nth_upd_other; auto; try (apply Z; auto).
+Qed.
+Lemma rv_lock_release : forall c S p ao u, RV c S p ao u -> npend p -> RV c (lock_release S) p ao u.
+Proof. intros. unfold lock_release. destruct (dlocked S); auto. apply rv_wake_first; auto. Qed.
+
 Definition Fin (c : nat) (S : st) : Prop :=
   exists p ao u, RV c S p ao u /\ (c = 0 -> ao = None) /\ forall b, u b = wtv b ao p.
 
@@ -287,7 +324,7 @@ Proof.
   - eapply fin_rv; [eapply rv_hook_at; eapply rv_setc_io; eapply rv_emit; eauto|auto|intros; rewrite U; auto].
 Qed.
 
-Lemma fin_hc_after_loop : forall c S p ao u b, RV c S p ao u -> p <> PSem WPending -> (c = 0 -> ao = None) ->
+Lemma fin_hc_after_loop : forall c S p ao u b, RV c S p ao u -> npend p -> (c = 0 -> ao = None) ->
   (forall b, u b = wtv b ao PRead) -> Fin c (hc_after_loop S c b).
 Proof.
   intros c S p ao u b H NP C0 U. unfold hc_after_loop.
@@ -296,6 +333,24 @@ Proof.
   destruct (_ && _).
   - eapply fin_rv; [eapply rv_goto; eapply rv_server_event; eauto|auto|intros; rewrite U; auto].
   - eapply fin_hc_cleanup; eauto. eapply rv_server_event; eauto.
+Qed.
+
+Lemma fin_drain_go : forall c l S p ao u, RV c S p ao u -> npend p -> (c = 0 -> ao = None) ->
+  (forall b, u b = wtv b ao PRead) -> Fin c (drain_go S c l).
+Proof.
+  induction l; simpl; intros S p ao u H NP C0 U.
+  - eapply fin_rv; [eapply rv_hc_read, rv_lock_release; eauto|auto|auto].
+  - destruct (c_writer (getc S a)); eauto. destruct (c_broken (getc S a)).
+    + eapply IHl; eauto. eapply rv_drain_error; eauto.
+    + destruct (c_cong (getc S a)); eauto.
+      eapply fin_rv; [eapply rv_goto, rv_emit; eauto|auto|intros; rewrite U; reflexivity].
+Qed.
+Lemma fin_drain_start : forall c S p ao u, RV c S p ao u -> npend p -> (c = 0 -> ao = None) ->
+  (forall b, u b = wtv b ao PRead) -> Fin c (drain_start S c).
+Proof.
+  intros. unfold drain_start. destruct (lock_free S).
+  - eapply fin_drain_go; [eapply rv_set_lock; eauto| | |]; eauto.
+  - destruct (c_cf (getc S c)); (eapply fin_rv; [eapply rv_goto, rv_set_lock; eauto|auto|intros; rewrite H2; reflexivity]).
 Qed.
 
 Lemma sem_locked_false : forall S a, sem_locked S a = false -> semval S a <> 0.
@@ -315,7 +370,11 @@ Ltac svr :=
   | |- RV _ (release_of _ _) _ (Some _) _ => eapply rv_release_some
   | |- RV _ (release_of _ _) _ None _ => eapply rv_release_none
   | |- RV _ (server_event _ _) _ _ _ => eapply rv_server_event
-  | |- RV _ (drain_writers _) _ _ _ => eapply rv_drain
+  | |- RV _ (set_lock _ _ _) _ _ _ => eapply rv_set_lock
+  | |- RV _ (lock_release _) _ _ _ => eapply rv_lock_release
+  | |- RV _ (wake_first _) _ _ _ => eapply rv_wake_first
+  | |- RV _ (drain_error _ _) _ _ _ => eapply rv_drain_error
+  | |- RV _ (setc _ _ (with_cong _ _)) _ _ _ => eapply rv_setc_cong
   | |- RV _ (wake_next _ _) _ _ _ => eapply rv_wake_next
   | |- RV _ (set_sem ?S ?a (semval ?S ?a - 1) _) _ _ _ => eapply rv_sem_dec
   | |- RV _ (set_sem ?S ?a (semval ?S ?a + 1) _) _ _ _ => eapply rv_sem_inc
@@ -329,6 +388,7 @@ Ltac svr :=
   | |- semval _ _ <> 0 => apply sem_locked_false; assumption
   | |- forall d, In d (_ ++ [_]) -> _ => let d := fresh "d" in let I := fresh "I" in intros d I; apply in_app_or in I; destruct I as [I|[I|[]]]; auto
   | |- forall d, In d (remove1 _ _) -> _ => let d := fresh "d" in let I := fresh "I" in intros d I; right; eapply in_remove1; eauto
+  | |- npend _ => split; discriminate
   | |- _ <> _ => discriminate
   | EV : (0 <? ?v) = true |- 1 <= ?v => apply Nat.ltb_lt in EV; exact EV
   | |- 1 <= _ => solve [unfold wtv, drop, bump; simpl; rewrite ?Nat.eqb_refl; simpl; lia]
@@ -350,8 +410,15 @@ Proof.
   fold (getc s c) in J1. unfold wt in J1. lia.
 Qed.
 
-Ltac finL := match goal with Ea : c_addr _ = ?ao |- _ => eapply (fin_hc_after_loop _ _ _ ao) end; [svr | discriminate | first [assumption | intros; congruence] | try solve [ucheck]].
+Ltac finL := match goal with Ea : c_addr _ = ?ao |- _ => eapply (fin_hc_after_loop _ _ _ ao) end; [svr | split; discriminate | first [assumption | intros; congruence] | try solve [ucheck]].
 Ltac finC := match goal with Ea : c_addr _ = ?ao |- _ => eapply (fin_hc_cleanup _ _ _ ao) end; [svr | first [assumption | intros; congruence] | try solve [ucheck]].
+Ltac finD := match goal with Ea : c_addr _ = ?ao |- _ => eapply (fin_drain_go _ _ _ _ ao) end; [svr | split; discriminate | first [assumption | intros; congruence] | try solve [ucheck]].
+Ltac finS := match goal with Ea : c_addr _ = ?ao |- _ => eapply (fin_drain_start _ _ _ ao) end; [svr | split; discriminate | first [assumption | intros; congruence] | try solve [ucheck]].
+Ltac drain_cases :=
+  first
+  [ (* PRead, normal *)
+    destruct (c_wk (getc _ _)) as [[| |[| |]| |]|]; try solve [fin]; first [finS | finL]
+  ].
 Lemma jj_run_conn : forall s c, JJ s -> c < length (conns s) -> JJ (run_conn s c).
 Proof.
   intros s c J L. apply (fin_JJ c). pose proof (jj_rv0 s c J L) as H0.
@@ -370,9 +437,14 @@ Proof.
   - destruct w; try solve [fin].
   - destruct w; try solve [fin].
     match goal with |- context [Nat.ltb 0 ?v] => destruct (Nat.ltb 0 v) eqn:EV end; try solve [fin].
-  - destruct (c_wk (getc s c)) as [[| | |[|]]|]; fin.
+  - destruct (c_wk (getc s c)) as [[| | |[|]|]|]; fin.
   - finL.
-  - destruct (c_wk (getc s c)) as [[| |[| |]|]|]; try solve [fin]; finL.
+  - destruct (c_wk (getc s c)) as [[| |[| |]| |]|]; try solve [fin]; first [finS | finL].
+  - destruct w; try solve [fin];
+      (match goal with |- context [if dlocked ?S then _ else _] => destruct (dlocked S) end; finL).
+  - destruct w; try solve [fin]; finD.
+  - finL.
+  - destruct (c_wk (getc s c)) as [[| | | |[|]]|]; try solve [fin]; finD.
   - finC.
   - destruct (Nat.eqb c 0); fin.
   - match goal with |- context [if ?k then setc _ _ (with_err _) else _] => destruct k end;
@@ -380,9 +452,14 @@ Proof.
     (match goal with |- context [c_addr (getc ?S c)] =>
        assert (EA : c_addr (getc S c) = None) by
          (repeat (rewrite getc_setc_same; [|rewrite ?len_setc; auto]); simpl; auto); rewrite EA end); fin.
-  - destruct (c_wk (getc s c)) as [[| | |[|]]|]; fin.
+  - destruct (c_wk (getc s c)) as [[| | |[|]|]|]; fin.
   - finL.
-  - destruct (c_wk (getc s c)) as [[| |[| |]|]|]; try solve [fin]; finL.
+  - destruct (c_wk (getc s c)) as [[| |[| |]| |]|]; try solve [fin]; first [finS | finL].
+  - destruct w; try solve [fin];
+      (match goal with |- context [if dlocked ?S then _ else _] => destruct (dlocked S) end; finL).
+  - destruct w; try solve [fin]; finD.
+  - finL.
+  - destruct (c_wk (getc s c)) as [[| | | |[|]]|]; try solve [fin]; finD.
   - finC.
 Qed.
 
@@ -449,7 +526,7 @@ Proof.
     eapply j2_frame; [apply frame_server_event|exact J].
 Qed.
 
-Lemma psoft_flags : forall x k f b, psoft x (mkConn (c_addr x) (c_pc x) k f (c_task x) (c_entry x) (c_writer x) b (c_rd x) (c_wr x) (c_err x)).
+Lemma psoft_flags : forall x k f b g, psoft x (mkConn (c_addr x) (c_pc x) k f (c_task x) (c_entry x) (c_writer x) b (c_rd x) (c_wr x) (c_err x) g).
 Proof. intros. unfold psoft; simpl; intuition. Qed.
 
 Lemma j2_step : forall s i s', step s i = Some s' -> J2 s -> J2 s'.
@@ -467,6 +544,9 @@ Proof.
     eapply j2_frame; eauto. apply frame_setc. apply psoft_flags.
   - inversion H; subst. destruct (_ && _); auto. eapply j2_frame; eauto using frame_cancel.
   - destruct (_ && _); inversion H; subst. eapply j2_frame; eauto. apply frame_setc. apply psoft_flags.
+  - destruct (_ && _); inversion H; subst. eapply j2_frame; eauto. apply frame_setc. apply psoft_flags.
+  - destruct (c_pc (getc s c)); try discriminate. destruct (_ && _); inversion H; subst.
+    eapply j2_frame; eauto. apply frame_setc. apply psoft_flags.
   - destruct t.
     + destruct (_ && _); inversion H; subst. apply j2_run_main; auto.
     + destruct (conn_ready s c) eqn:R; simpl in H; [|discriminate].
